@@ -164,4 +164,12 @@ def specOuts (prep : Nat → String → σ → PrepResult ρ) (S : Spec σ ρ) :
 /-- abstraction: forget the list representation -/
 def abs (s : State σ ρ) : Spec σ ρ := ⟨fun k => find? s.cache k, s.calls⟩
 
+/-- operations that cannot change what is cached for `k` while it holds version `v`: anything on
+    another key, lookups, re-offers of `v` itself, malformed offers, deletes naming another version -/
+def Quiet (k : Key) (v : String) : Op σ → Prop
+  | .offer k' version _ _ => k' ≠ k ∨ version = some v ∨ validMeta k' version = false
+  | .delete k' version => k' ≠ k ∨ ∃ w, version = some w ∧ w ≠ "" ∧ w ≠ v
+  | .lookup _ => True
+  | .systemData _ => True
+
 end Koreo.Cache
